@@ -16,7 +16,7 @@ EXPLANATION = (
     "Decided (static, MIR): C18.1 teardown mirrors set-up: set-up maps the completion ring only when IORING_FEAT_SINGLE_MMAP is absent and otherwise aliases the submission ring pointer, "
     "so in Drop for IoUring the munmap whose address derives from completion_queue.ring_ptr must be control-dependent on a comparison of the two ring pointers (or the feature bit) - an unconditional third munmap releases the same range twice; "
     "C18.2 sizes agree: the two ring unmaps use the ring_size fields that set-up stored from the very sizes it mapped, the SQE array is unmapped with ring_entries * sqe_size where sqe_size uses the same SQE128 test as set-up, and close(fd) happens once, after the unmaps; "
-    "C18.3 set-up failure edges release what was acquired (checked under C12.1/C12.2); "
+    "C18.3 set-up failure edges release what was acquired: the ring descriptor and each mapping made so far are disposed of exactly once on every exit of setup_io_uring (the C12.1/C12.2 typestate analysis, run here on that function); "
     "C18.4 every SQE constructor is well-formed (sibling agreement over all new_* functions): opcode is the IoUringOp variant the name says, user_data and flags come from the parameters of those names, fd from the descriptor/dir-fd parameter (AT_FDCWD for None), each field is fed from the argument the kernel's prep function reads there (reviewed table c18_abi.json), every parameter reaches the entry and no field carries the caller's argument on some paths and a constant on others; "
     "C18.5 io_uring_enter / io_uring_register_* pass the ring descriptor and their arguments through to the system call and classify the result (C09). "
     "C18.6 a submission slot is handed out only while (tail + 1) - kernel_head <= ring_entries with the head the kernel publishes on every path, so no queued operation is overwritten before it was consumed, flush leaves the tail unpublished only when head == tail, and the completion read is entries + ((kernel_head & mask) << shift); "
@@ -58,6 +58,8 @@ def run_one(ck, prog):
     ck.ob("C18.1", "setup|cq-mapping-conditional-on-single-mmap", len(cond_maps) == 1, fn=su["path"], detail=f"mappings made under the SINGLE_MMAP feature test: {len(cond_maps)} (expected exactly the completion ring)")
     check_index_array(ck, prog, "C18.1")
     check_ring_geometry(ck, prog, "C18.1")
+    from .c12 import check_ring_setup_release
+    check_ring_setup_release(ck, prog, "C18.3")
     # ---- drop side ----------------------------------------------------------------------------------------------------------
     unmaps = [(bb, dc.args(bb)) for bb, t in dc.cfg.calls(lambda t: t.get("callee") == MUNMAP)]
     ck.ob("C18.1", "drop|three-munmaps", len(unmaps) == 3, fn=d["path"], detail=f"munmap sites in Drop: {len(unmaps)}")
